@@ -277,25 +277,28 @@ def setview(snap):
     return {b: collections.Counter(strict.collapse_rec_key(k) for k in c.elements()) for b, c in snap.items()}
 
 
-def normalise_reader(snap, fmt):
+def normalise_reader(snap, fmt, notes=None):
+    """The documented PROV-JSON normalisation: a membership listing several entities becomes the record itself with the first
+    listed member (keeping identifier and other attributes) plus one anonymous, bare membership per further member."""
     if fmt != "json":
         return snap
+    order = (notes or {}).get("membership_order", {})
     out = {}
     for b, c in snap.items():
         nc = collections.Counter()
         for rk, n in c.items():
             t, i, attrs = rk
-            ents = [(a, v) for (a, v), m in attrs if a == PROV + "entity" for _ in range(m)]
-            if t == PROV + "Membership" and len(ents) > 1:
+            nents = sum(m for (a, v), m in attrs if a == PROV + "entity")
+            if t == PROV + "Membership" and nents > 1:
                 rest = [((a, v), m) for (a, v), m in attrs if a != PROV + "entity"]
                 col = [x for x in rest if x[0][0] == PROV + "collection"]
-                first = True
-                for e in ents:
-                    if first:
-                        nc[(t, i, tuple(sorted(rest + [(e, 1)], key=repr)))] += n
-                        first = False
-                    else:
-                        nc[(t, None, tuple(sorted(col + [(e, 1)], key=repr)))] += n
+                listings = order.get(b, {}).get(rk) or []
+                for k in range(n):
+                    members = listings[k] if k < len(listings) else [v[1] for (a, v), m in attrs if a == PROV + "entity" for _ in range(m)]
+                    first, others = members[0], members[1:]
+                    nc[(t, i, tuple(sorted(rest + [((PROV + "entity", ("qn", first)), 1)], key=repr)))] += 1
+                    for e in others:
+                        nc[(t, None, tuple(sorted(col + [((PROV + "entity", ("qn", e)), 1)], key=repr)))] += 1
             else:
                 nc[rk] += n
         out[b] = nc
@@ -343,7 +346,7 @@ def problems_of(ctx, case):
         return [], "ambiguous"
     problems = []
     lib = strict.strict(d)
-    want = setview(normalise_reader(rsnap, fmt))
+    want = setview(normalise_reader(rsnap, fmt, notes))
     got = setview(lib)
     if want != got:
         problems.append({"clause": "never drops or invents", "diff_reader_vs_library": strict.diff(want, got)})
